@@ -135,6 +135,10 @@ func BuildSchemaValidationV31(schema *base.Schema, validationString string, fiel
 						Kind:  yaml.ScalarNode,
 						Value: v,
 					}
+					if specType == "string" {
+						// Without an explicit tag, values such as "1" or "true" are rendered as numbers/booleans
+						node.Tag = "!!str"
+					}
 					schema.Enum = append(schema.Enum, node)
 				}
 			}
@@ -153,6 +157,7 @@ func BuildSchemaValidationV31(schema *base.Schema, validationString string, fiel
 					node := &yaml.Node{
 						Kind:  yaml.ScalarNode,
 						Value: v,
+						Tag:   "!!str",
 					}
 					schema.Enum = append(schema.Enum, node)
 				}
